@@ -67,7 +67,8 @@ def run(ctx):
             for a, b, k in pairs:
                 t = "(%s - %s)" % (a, b)
                 if k == 2:
-                    t = rng.choice(["2 * " + t, t + " * 2", t + " + " + t])
+                    # also distributed, with the address on the left of '*' and the subtrahend first
+                    t = rng.choice(["2 * " + t, t + " * 2", t + " + " + t, "%s*2 - %s*2" % (a, b), "(0 - %s*2 + %s*2)" % (b, a), "2*%s - 2*%s" % (a, b)])
                 elif k == -1:
                     t = "(%s - %s)" % (b, a)
                 parts.append(t)
